@@ -258,6 +258,8 @@ func TestPolicy(t *testing.T) {
 						// extension directives with quoted-string arguments (no comma inside: the repository's
 						// parser documents that as unsupported), including quoted pairs
 						`ext="a\"b"`, `ext="q"`, `community="U\\C\"I"`, `no-cache="set-cookie"`, `x="no-store"`, `private="x-hdr"`, `max-age="60"`,
+						// a quoted-string whose last character is an escaped backslash: the quote after it closes the string
+						`ext="C:\\"`, `ext="\\"`, `ext="a\\\\"`,
 						// bytes whose case mapping changes their length (invalid UTF-8, U+023A, U+0130)
 						"\xff", "\u023a=1", "\u0130", "x=\xff\xfe"}
 					n := c.Int("cc.n", 1, 3)
